@@ -6,15 +6,14 @@ from pathlib import Path
 HERE = Path(__file__).resolve().parent
 ALL = [f'C{i:02}' for i in range(1, 21)]
 
-CHECKS = {
-    'C08': dict(
-        technique='TLA+ model (IdAlloc) checked by TLC; every model transition replayed on real VMF objects; implementation records validated by TLC (IdAllocTrace)',
-        category='model_checking',
-        text='TLC exhausts the ID allocation design (3 object slots x 2 maps x desired IDs -1..3; fixup tables over 3 variables) with uniqueness, positivity, hint and no-leak invariants; every one of the ~65k transitions is executed on real Entity/Solid/Side/VisGroup/EntityGroup/EntityFixup objects and each logged step must be exactly the step IdAllocOps takes from the logged pre-state; seeded random histories, parsed documents with colliding IDs, node IDs and fixup tables beyond the bounds are validated the same way.',
-        design_ref='4 (C08)',
-        note='Trusts TLC, the projection (IDMan._used/search_pos, .id attributes) and CPython reference counting for object destruction. Pure-Python tree only.',
-    ),
-}
+import importlib, sys
+sys.path.insert(0, str(HERE))
+CHECKS = {}
+for pid in ALL:
+    if (HERE / 'props' / f'{pid.lower()}.py').exists():
+        mod = importlib.import_module('props.' + pid.lower())
+        if getattr(mod, 'MANIFEST', None):
+            CHECKS[pid] = mod.MANIFEST
 
 NOT_YET = 'check not built yet in this round (planned, see DESIGN.md section 8)'
 
